@@ -308,10 +308,60 @@ pub fn replay_c07(path: &str) {
     rep.finish(json!({"sizes": sizes}));
 }
 
+/// Huge pages for C07: the byte image is summarised (length, header, number of non-zero data bytes, padding all 0xFF)
+/// instead of being written out; single pixels are recorded through the bytes they change, as for small pages.
+fn record_c07_huge(out: &mut TraceOut, rng: &mut StdRng, w: u32, h: u32) {
+    let id = 0xC3u8;
+    let fresh = match catch(|| Page::new(PageId(id), w, h)) {
+        Ok(p) => p,
+        Err(_) => {
+            out.emit(json!({"e": "newsum", "id": id, "w": w, "h": h, "len": 0, "header": [], "data_nonzero": 0, "pad_ok": false, "rw": 0, "rh": 0, "panic": true}));
+            return;
+        }
+    };
+    let b = fresh.as_bytes();
+    let db = data_bytes(w, h).min(b.len());
+    let nz = b[4.min(b.len())..db].iter().filter(|x| **x != 0).count();
+    let pad_ok = b[db..].iter().all(|x| *x == 0xFF);
+    out.emit(json!({"e": "newsum", "id": id, "w": w, "h": h, "len": b.len(), "header": j::bytes(&b[..4.min(b.len())]), "data_nonzero": nz, "pad_ok": pad_ok,
+                    "rw": fresh.width(), "rh": fresh.height(), "panic": false}));
+    let mut coords = vec![(0u32, 0u32), (w - 1, 0), (0, h - 1), (w - 1, h - 1)];
+    for _ in 0..12 {
+        coords.push((rng.gen_range(0..w), rng.gen_range(0..h)));
+    }
+    for (x, y) in coords {
+        let mut p = fresh.clone();
+        if catch(|| p.set_pixel(x, y, true)).is_err() {
+            out.emit(json!({"e": "set1", "w": w, "h": h, "x": x, "y": y, "changed": [], "panic": true, "reads": false}));
+            continue;
+        }
+        let changed: Vec<Value> = p.as_bytes().iter().zip(fresh.as_bytes()).enumerate().filter(|(_, (a, b))| a != b).take(8).map(|(i, (a, _))| json!([i, a])).collect();
+        let reads = catch(|| p.get_pixel(x, y)).unwrap_or(false);
+        out.emit(json!({"e": "set1", "w": w, "h": h, "x": x, "y": y, "changed": changed, "panic": false, "reads": reads}));
+    }
+    // from_bytes at the padded length and one chunk off it
+    let total = fresh.as_bytes().len();
+    for len in [total, total + 16, total.saturating_sub(16)] {
+        let bytes = vec![0u8; len];
+        match catch(|| Page::from_bytes(w, h, bytes).map(|p| p.as_bytes().len())) {
+            Ok(Ok(n)) => out.emit(json!({"e": "frombytes", "w": w, "h": h, "len": len, "res": "ok", "expected": 0, "actual": 0, "same_bytes": n == len, "equals_producer": true})),
+            Ok(Err(flipdot_core::PageError::WrongPageLength { expected, actual, .. })) => {
+                out.emit(json!({"e": "frombytes", "w": w, "h": h, "len": len, "res": "wronglength", "expected": expected, "actual": actual, "same_bytes": true, "equals_producer": true}))
+            }
+            _ => out.emit(json!({"e": "frombytes", "w": w, "h": h, "len": len, "res": "othererr", "expected": 0, "actual": 0, "same_bytes": true, "equals_producer": true})),
+        }
+    }
+}
+
 pub fn record_c07(a: &Args) -> usize {
     let thorough = a.tier == "thorough";
     let mut rng = StdRng::seed_from_u64(a.seed ^ 0xC07);
     let mut out = TraceOut::new(&a.out, "C07", a.shards);
+    let huge: Vec<(u32, u32)> = if thorough { vec![(1, 16_777_217), (2, 16_777_217), (16, 16_777_225), (70_000, 120), (65_535, 33), (1 << 20, 9), (3, 1 << 25)] } else { vec![(2, 16_777_217), (70_000, 120), (65_535, 33)] };
+    for (w, h) in huge {
+        out.balance();
+        record_c07_huge(&mut out, &mut rng, w, h);
+    }
     let mut sizes: Vec<(u32, u32)> = ALL_TYPES.iter().map(|t| t.dimensions()).collect();
     sizes.extend_from_slice(&[(0, 0), (0, 1), (1, 0), (12, 8), (13, 8), (6, 16), (4, 20), (28, 1), (28, 8), (5, 17), (5, 24), (5, 25), (3, 33), (1000, 16), (255, 255)]);
     if thorough {
@@ -440,11 +490,54 @@ fn vsign_accepts(block: &[u8], w: u32, h: u32) -> Value {
         }
     };
     let full = Page::new(PageId(1), w, h).as_bytes().to_vec();
+    // the same after the sign has first been offered a doctored block of the same family / id (other size fields), in
+    // the same transfer and on a retry after a failed one: what counts is the block that was sent last
+    let run_after_doctored = |retry: bool| -> Value {
+        let mut doctored = block.to_vec();
+        if block[0] == 4 {
+            doctored[4] = doctored[4].wrapping_add(2);
+            doctored[5] = doctored[5].wrapping_add(3);
+        } else {
+            doctored[5] = doctored[5].wrapping_add(2);
+            doctored[7] = doctored[7].wrapping_add(3);
+        }
+        let mut s = VirtualSign::new(a, PageFlipStyle::Manual);
+        let r = catch(|| {
+            let _ = s.process_message(&Message::RequestOperation(a, Operation::ReceiveConfig));
+            let _ = s.process_message(&Message::SendData(Offset(0), Data::try_new(doctored.clone()).unwrap()));
+            if retry {
+                let _ = s.process_message(&Message::DataChunksSent(ChunkCount(7)));
+                let _ = s.process_message(&Message::RequestOperation(a, Operation::ReceiveConfig));
+                let _ = s.process_message(&Message::SendData(Offset(0), Data::try_new(block.to_vec()).unwrap()));
+                let _ = s.process_message(&Message::DataChunksSent(ChunkCount(1)));
+            } else {
+                let _ = s.process_message(&Message::SendData(Offset(0), Data::try_new(block.to_vec()).unwrap()));
+                let _ = s.process_message(&Message::DataChunksSent(ChunkCount(2)));
+            }
+            let _ = s.process_message(&Message::RequestOperation(a, Operation::ReceivePixels));
+            let mut n = 0u16;
+            for (i, c) in full.chunks(16).enumerate() {
+                let _ = s.process_message(&Message::SendData(Offset((i * 16) as u16), Data::try_new(c.to_vec()).unwrap()));
+                n += 1;
+            }
+            let _ = s.process_message(&Message::DataChunksSent(ChunkCount(n)));
+        });
+        if r.is_err() {
+            return json!({"stored": -1, "w": 0, "h": 0, "typ": "Panic"});
+        }
+        let typ = s.sign_type().map(|t| format!("{:?}", t)).unwrap_or("None".into());
+        match s.pages().first() {
+            Some(p) => json!({"stored": s.pages().len(), "w": p.width(), "h": p.height(), "typ": typ}),
+            None => json!({"stored": 0, "w": 0, "h": 0, "typ": typ}),
+        }
+    };
     let mut short = full.clone();
     short.truncate(full.len().saturating_sub(16));
     let mut long = full.clone();
     long.extend_from_slice(&[0xFF; 16]);
-    json!({"full": run(full), "short": run(short), "long": run(long)})
+    let after_same = run_after_doctored(false);
+    let after_retry = run_after_doctored(true);
+    json!({"full": run(full), "short": run(short), "long": run(long), "after_doctored": after_same, "after_doctored_retry": after_retry})
 }
 
 pub fn record_c19(a: &Args) -> usize {
@@ -509,8 +602,8 @@ pub fn record_c19(a: &Args) -> usize {
             b[1] = *i;
             out.emit(json!({"e": "decode", "bytes": j::bytes(&b), "r": decode_type(&b)}));
         }
-        // every length 0..=40, with supported and unsupported leading bytes
-        for len in 0..=40usize {
+        // every length 0..=40 and lengths that are 16 modulo a power of two, with supported and unsupported leading bytes
+        for len in (0..=40usize).chain([48, 64, 127, 128, 144, 255, 256, 257, 271, 272, 273, 528, 4112, 65552]) {
             for variant in 0..3 {
                 let mut b: Vec<u8> = (0..len).map(|_| rng.r#gen()).collect();
                 if variant > 0 && len >= 2 {
